@@ -445,9 +445,33 @@ fn folded_cases(ctx: &mut Ctx, n: usize) -> Vec<Case> {
     out
 }
 
+/// Runs of requests validated against one server clock a minute after a UTC midnight, stamped alternately
+/// before and after that midnight (each correctly scoped with its own day): anything remembered per server
+/// day, per access key or per scope from one validation must not decide the next.
+fn midnight_runs(ctx: &mut Ctx, n: usize) -> Vec<Case> {
+    let mut rng = ctx.rng.fork();
+    let mut out = Vec::new();
+    for k in 0..n {
+        let day = [16677i64, 17896, 16801, 19782][k % 4];
+        let midnight = (day as i128 + 1) * 86_400_000_000_000;
+        let now = ((midnight / 1_000_000_000) as i64 + 60, 0u32);
+        for step in 0..4 {
+            let before = (step + k) % 2 == 0;
+            let t = if before { midnight - (10 + rng.below(700) as i128) * 1_000_000_000 } else { midnight + rng.below(900) as i128 * 1_000_000_000 };
+            let mut l = simple_logical(if (k + step) % 3 == 0 { Carrier::Query } else { Carrier::Header }, t);
+            if step == 3 {
+                l.token = Some("TOKEN123".into());
+            }
+            out.push(sign_and_spell(&l, &mut rng, &Spelling::plain(), now).case);
+        }
+    }
+    out
+}
+
 pub fn c18(ctx: &mut Ctx) {
     let n = ctx.n(150, 1500);
     let mut cases = mode_pairs(ctx, ctx.n(20, 200));
+    cases.extend(midnight_runs(ctx, ctx.n(8, 80)));
     cases.extend(folded_cases(ctx, ctx.n(30, 300)));
     let npairs = cases.len();
     cases.extend(corpus(ctx, n));
